@@ -43,6 +43,7 @@ type Sim struct {
 	mu       sync.Mutex
 	parked   []*entry
 	labels   map[int64]string
+	alias    map[int64]string // pool workers: label of the work item in hand
 	held     map[int64]int
 	children map[string]int
 	sched    int64 // goid of the scheduler
@@ -105,6 +106,7 @@ func Cur() *Sim { return cur }
 func New(plan, sched *Tape) *Sim {
 	s := &Sim{
 		labels:   map[int64]string{},
+		alias:    map[int64]string{},
 		held:     map[int64]int{},
 		children: map[string]int{},
 		tasks:    map[string]*task{},
@@ -259,6 +261,34 @@ func createdBy() (fn string, parent int64) {
 // earlier run in the same process): such goroutines are never parked here.
 // Caller holds s.mu.
 func (s *Sim) labelOf(gid int64) string {
+	if a, ok := s.alias[gid]; ok {
+		return a
+	}
+	return s.ownLabel(gid)
+}
+
+// Alias makes the calling goroutine - a member of a pool of identical workers
+// - appear under a label derived from the work item it has just taken (which
+// worker takes which item is decided by the Go runtime, not by the scheduler),
+// until it takes the next one.
+func (s *Sim) Alias(key string) {
+	gid := Goid()
+	s.mu.Lock()
+	defer s.mu.Unlock()
+	if s.closed || s.Inert {
+		return
+	}
+	base := s.ownLabel(gid)
+	if base == "" {
+		return
+	}
+	k := instancePrefix(base) + key
+	n := s.children["alias|"+k]
+	s.children["alias|"+k] = n + 1
+	s.alias[gid] = k + "#" + strconv.Itoa(n)
+}
+
+func (s *Sim) ownLabel(gid int64) string {
 	if l, ok := s.labels[gid]; ok {
 		return l
 	}
